@@ -259,12 +259,21 @@ impl Rollback {
 
         // NOTE: for now, if there is a pending truncate, we ignore everything else.
         if let Some(pending_truncate) = pending_truncate {
-            let rollback_start_live = std::cmp::min(seglog.live_range().0 .0, pending_truncate);
+            // If every live record has been rolled back, the new end lies before the start of the
+            // live range (whose older records may already have been pruned). The log is then
+            // empty: publish the empty range and prune everything, rather than a range naming a
+            // record which is no longer live.
+            let new_end_live = if pending_truncate < seglog.live_range().0 .0 {
+                0
+            } else {
+                pending_truncate
+            };
+            let rollback_start_live = std::cmp::min(seglog.live_range().0 .0, new_end_live);
             return WriteoutData {
                 rollback_start_live,
-                rollback_end_live: pending_truncate,
+                rollback_end_live: new_end_live,
                 prune_to_new_start_live: None,
-                prune_to_new_end_live: Some(pending_truncate),
+                prune_to_new_end_live: Some(new_end_live),
             };
         }
 
